@@ -1,6 +1,10 @@
 """Texts of MANIFEST.json checks: (level text, level note, technique, DESIGN section)."""
 T = "machine-checked proof (Lean 4) + regenerated facts + model/implementation correspondence"
 TEXT = {
+ "C07": ("Lean: the inventory of panic-capable sites regenerated from the source (slices, indexes, unchecked assertions, panic calls, pointer elements of decoded slices, externals with panicking preconditions) equals the accounted table; "
+         "panics are explicit outcomes in the model and theorems show no modelled accessor, factory, MAC/AEAD/ECDH operation, nonce selection or verification reaches one for any input (decoders are total, without a panic outcome). "
+         "The harness runs every op under recover over the malformed streams of all families; five panics found this way were repaired (D1, D3, D5, D6, D7, D15)",
+         "partial: dependencies assumed panic-free; resource proportionality not modelled", T, "7.7"),
  "C19": ("Lean theorems: schedule independence (calls that never write shared state return in every interleaving of any number of goroutines what they return alone) and, as kernel-checked obligations on the footprints regenerated from the source, "
          "its premise for this code: every method of the 12 shared implementation types only reads receiver fields or passes them to allow-listed constructors / concurrency-safe calls, no field or package variable is assigned outside Register*, "
          "the struct field tables hold no cache or scratch state. A -race build exercising one shared instance of every implementation supports the search",
